@@ -132,7 +132,18 @@ class CountingDict(dict):
 def run_case(case):
     res = common.CaseResult()
     db = CountingDict()
-    r = hexlib.HexRunner(res, case["prune"], None, db=db)
+    orng = common.mk_rng(case["pseed"], "interleaved")
+
+    def observe(runner, tg, trie, model):
+        # the same trie object is queried between mutations (results cached per object would go stale)
+        Jm = sorted((_nib(k), v) for k, v in model.items())
+        for p in probe_paths(model, orng, 3):
+            out = hexlib.fmt_traverse(lambda: trie.traverse(p))
+            res.emit("hx.trav 0 %s" % nibstr(p), out)
+            if out != describe(Jm, p):
+                res.fail("traverse-wrong", "mid-history traverse(%s): got %s ; contents require %s" % (nibstr(p), out, describe(Jm, p)))
+
+    r = hexlib.HexRunner(res, case["prune"], observe, db=db)
     r.run(case["ops"])
     trie, model = r.trie, r.model
     rng = common.mk_rng(case["pseed"], "paths")
